@@ -5,8 +5,8 @@
    of free-running logs, and the comparison of final observables.
 
    input    = (mode codec cipher ocap icap ecap hw hr senders closers input peerread
-               inconsumer seed script closeafter latesend [(failafter immediate maxprocs)])
-   observed = (oracle inoracle events results wire (garbage eof peererr nofin) counters delivered
+               inconsumer seed script closeafter latesend [(failafter immediate maxprocs readtimeout lateinput waitinput smallbuf)])
+   observed = (oracle inoracle events results wire (garbage eof peererr nofin peerreset) counters delivered
                (badendpoint foreign) (errgot errforeign) closeres (panics state doneclosed)
                (inconclusive stuck pumpafterwait) late) *)
 From Coq Require Import ZArith List Bool Arith.
@@ -21,7 +21,8 @@ Record scen := mkscen {
   sc_input : list (Z * Z * Z);             (* (kind, id, size) *)
   sc_inconsumer : Z; sc_closeafter : Z; sc_latesend : Z;
   sc_failafter : Z;                        (* >= 0: injected write failure after that many writes; -1: none *)
-  sc_immediate : Z
+  sc_immediate : Z;
+  sc_waitinput : Z                         (* 1: the peer had written all its input before any Close was called *)
 }.
 
 Record obs := mkobs {
@@ -30,7 +31,7 @@ Record obs := mkobs {
   o_events : list (Z * Z * Z * Z);         (* (thread kind, index, point, arg) in arrival order *)
   o_results : list (list (Z * Z));
   o_wire : list (Z * Z * Z);               (* (id, frame size, body intact) *)
-  o_garbage : Z; o_eof : Z; o_peererr : Z; o_nofin : Z;
+  o_garbage : Z; o_eof : Z; o_peererr : Z; o_nofin : Z; o_peerreset : Z;
   o_counters : list Z;
   o_delivered : list Z;
   o_badendpoint : Z; o_foreign : Z;
@@ -62,9 +63,14 @@ Definition decode_scen (s : sx) : option scen :=
         | SList (SInt f :: SInt i :: _) :: _ => (f, i)
         | _ => (-1, 0)
         end in
+      let waitinput :=
+        match extras with
+        | SList (_ :: _ :: _ :: _ :: _ :: SInt w :: _) :: _ => w
+        | _ => 0
+        end in
       match sx_b hw, sx_b hr, sx_listof (sx_listof sx_pair) snd, sx_listof sx_b cls, sx_listof sx_triple inp with
       | Some hw, Some hr, Some snd, Some cls, Some inp =>
-          Some (mkscen mode ocap icap ecap hw hr snd cls inp incons closeafter latesend failafter immediate)
+          Some (mkscen mode ocap icap ecap hw hr snd cls inp incons closeafter latesend failafter immediate waitinput)
       | _, _, _, _, _ => None
       end
   | _ => None
@@ -79,7 +85,8 @@ Definition decode_obs (s : sx) : option obs :=
             sx_listof (sx_listof sx_pair) res, sx_listof sx_triple wire, sx_ints cnt, sx_ints deliv,
             sx_ints cres, sx_ints late with
       | Some orc, Some inorc, Some evs, Some res, Some wire, Some cnt, Some deliv, Some cres, Some late =>
-          Some (mkobs orc inorc evs res wire garbage eof peererr (match fl with SInt n :: _ => n | _ => 0 end) cnt deliv badep foreign errgot errforeign
+          Some (mkobs orc inorc evs res wire garbage eof peererr (match fl with SInt n :: _ => n | _ => 0 end)
+                      (match fl with _ :: SInt r :: _ => r | _ => 0 end) cnt deliv badep foreign errgot errforeign
                       cres panics state doneclosed inconcl stuck paw late)
       | _, _, _, _, _, _, _, _, _ => None
       end
